@@ -65,19 +65,23 @@ Definition string_of_bytes (l : list N) : string := string_of_list_ascii (map as
 Definition packed (a : address) : string :=
   string_of_bytes (be_encode (if Z.eqb (fst a) 4 then 4%nat else 16%nat) (Z.to_N (snd a))).
 
+(** Configuration._get_payload_id(value): the part after the try block *)
+Definition payload_id_text (value : pv) : res ident :=
+  do ty <- match value with
+           | PStr s => Ok (if contains_char "@" s then ID_RFC822_ADDR else ID_FQDN)
+           | PList _ | PDict _ => Ok ID_FQDN  (* membership test works; both branches then fail at .encode() *)
+           | PNone | PBool _ | PInt _ => Raise TypeError   (* argument of type ... is not iterable *)
+           end;
+  do data <- py_encode value;
+  Ok {| id_type := ty; id_data := data |}.
+
 (** Configuration._get_payload_id(value) *)
 Definition get_payload_id (value : pv) : res ident :=
   except_pass
     (do addr <- o_ip_address E value;
      Ok {| id_type := if Z.eqb (fst addr) 4 then ID_IPV4_ADDR else ID_IPV6_ADDR; id_data := packed addr |})
     payload_id_caught
-    (do ty <- match value with
-              | PStr s => Ok (if contains_char "@" s then ID_RFC822_ADDR else ID_FQDN)
-              | PList _ | PDict _ => Ok ID_FQDN  (* membership test works; both branches then fail at .encode() *)
-              | PNone | PBool _ | PInt _ => Raise TypeError   (* argument of type ... is not iterable *)
-              end;
-     do data <- py_encode value;
-     Ok {| id_type := ty; id_data := data |}).
+    (payload_id_text value).
 
 (** `<loader>(conf_dict.get(k).encode()) if k in conf_dict else None` (k in conf_dict on a dict) *)
 Definition load_opt_key (d : pv) (k : string) (loader : string -> res Z) : res (option Z) :=
